@@ -232,10 +232,34 @@ func c10IsolationCase(out *workerOut, r *Rand, idx int, root, tier string) {
 	if tier == "thorough" {
 		nvar = 16
 	}
-	for v := 0; v < nvar; v++ {
+	// small file sets: every subset of >= 2 files, each in the written and in the reversed order
+	// (exhaustive over subsets; argument orders beyond these two are sampled by the random variants)
+	var exhaustive [][]string
+	if n := len(lay.Lint); n >= 2 && n <= 5 && (tier == "thorough" || n <= 3) {
+		for mask := 1; mask < 1<<uint(n); mask++ {
+			var sub []string
+			for i := 0; i < n; i++ {
+				if mask&(1<<uint(i)) != 0 {
+					sub = append(sub, lay.Lint[i])
+				}
+			}
+			if len(sub) < 2 {
+				continue
+			}
+			rev := make([]string, len(sub))
+			for i := range sub {
+				rev[len(sub)-1-i] = sub[i]
+			}
+			exhaustive = append(exhaustive, sub, rev)
+		}
+		out.count("cases_with_exhaustive_subsets", 1)
+	}
+	for v := 0; v < nvar+len(exhaustive); v++ {
 		// subset + order
 		var files []string
 		switch {
+		case v >= nvar:
+			files = exhaustive[v-nvar]
 		case v == 0:
 			files = append(files, lay.Lint...)
 		case v == 1:
